@@ -3,7 +3,7 @@ from .core import BASE_TRUST, LEAN, Problem
 
 META = {
     "category": "proof",
-    "text": "PARTIAL. Lean 4 proof that the Discard discipline makes the value pool safe (heap + free list + clients: for ALL operation sequences obeying 'discard only what you alone reference, never touch it afterwards', every read returns the value the reader was given; invariant: no address both free and live) with a counter-witness for a premature discard; every value.Discard(x) call site of lib/query and lib/value and every assignment of lib/query that writes through a parser.* value is regenerated from /repo on every run (go/ast + go/types) and checked by `decide` (all sites fresh, not used afterwards, not escaping; the value.To* conversions return value.New* results on every path; theorems ast_readonly, cells_never_overwritten, scope_closed_once: NO write into a shared syntax tree, no store into an existing (slice-shared) table cell, no scope block closed both by a function and by its callee; pre-finding F8 was repaired in /repo by commit 02f8662 and stays watched: a new shared write breaks ast_readonly and is reported as astwrite:<file>:<function>:<lhs>, a bad Discard as discard:<file>:<function>:<var>:<reason>, a cell overwrite as cellwrite:…, a double close as doubleclose:…, a conversion handing back its argument as conversion:value.<To*>:notFresh). TRUSTED, not proved: the step 'syntactic fact => behaviour of the running program' (callees are not analysed), sync.Pool as a free list. Cross-checked on every run: generated statements over all built-in scalar functions, operators and clauses evaluated twice (plain / WHILE / user-defined function / PREPARE+EXECUTE), syntax trees printed before and after execution, tables / cursor rows / variables read again; half of the workload processes run with the Discard-poisoning hook H2 switched on and every result cell, printed syntax tree, syntax-tree literal, variable, cursor row and re-read table cell is searched for the poison values (law poisoned_read)",
+    "text": "PARTIAL. Lean 4 proof that the Discard discipline makes the value pool safe (heap + free list + clients: for ALL operation sequences obeying 'discard only what you alone reference, never touch it afterwards', every read returns the value the reader was given; invariant: no address both free and live) with a counter-witness for a premature discard; every value.Discard(x) call site of lib/query and lib/value and every assignment of lib/query that writes through a parser.* value is regenerated from /repo on every run (go/ast + go/types) and checked by `decide` (all sites fresh, not used afterwards, not escaping; the value.To* conversions return value.New* results on every path; theorems ast_readonly, cells_never_overwritten, scope_closed_once, getters_return_copies: NO write into a shared syntax tree, no store into an existing (slice-shared) table cell, no scope block closed both by a function and by its callee, every Get* accessor of a stored view returns a copy; pre-finding F8 was repaired in /repo by commit 02f8662 and stays watched: a new shared write breaks ast_readonly and is reported as astwrite:<file>:<function>:<lhs>, a bad Discard as discard:<file>:<function>:<var>:<reason>, a cell overwrite as cellwrite:…, a double close as doubleclose:…, a conversion handing back its argument as conversion:value.<To*>:notFresh). TRUSTED, not proved: the step 'syntactic fact => behaviour of the running program' (callees are not analysed), sync.Pool as a free list. Cross-checked on every run: generated statements over all built-in scalar functions, operators and clauses evaluated twice (plain / WHILE / user-defined function / PREPARE+EXECUTE), syntax trees printed before and after execution, tables / cursor rows / variables read again; half of the workload processes run with the Discard-poisoning hook H2 switched on and every result cell, printed syntax tree, syntax-tree literal, variable, cursor row and re-read table cell is searched for the poison values (law poisoned_read)",
     "design_ref": "DESIGN.md section 5, C14",
     "note": "trusted: Lean kernel (propext, Classical.choice, Quot.sound only), the extractor extract/discardfacts (conservative, syntactic), sync.Pool modelled as a free list, harness generators. Hook H2 is built (/repo 3417236, build tag verif, VERIF_POISON_DISCARD=1): in every other workload process Discard overwrites the object with a recognisable poison and never re-issues it, so a read of a discarded object is reported (law poisoned_read) the first time it happens, without waiting for the pool to re-issue the object; what H2 does not give: paths the generators never execute, and the NaN poison of a Float is recognised on values (result views, syntax-tree literals, re-read tables), not in printed text",
     "technique": "Lean 4 machine-checked proof over a heap/pool model + facts regenerated from the Go source checked by kernel evaluation + differential self-comparison (evaluate twice / read again) on the real code",
@@ -105,6 +105,13 @@ def run(run):
             other_sites.append(sg)
             run.problems.append(Problem("direct", sg, {"what": "a value is stored INTO an existing cell; cells are shared by every shallow copy of a cached table (cursors, derived temporary views, the restore point, rows already read)",
                                                        "site": "%s:%d" % (f["file"], f["line"])}, concrete=False, signature=sg))
+        for f in parse_list("getterFacts"):
+            if f["how"] in ("copy", "delegated"):
+                continue
+            sg = "getter:%s:%s:%s" % (f["file"], f["fn"], f["lhs"])
+            other_sites.append(sg)
+            run.problems.append(Problem("direct", sg, {"what": "a Get* accessor hands out a stored view without view.Copy(): the in-place steps of evaluation (WHERE compaction, ORDER BY, OFFSET, grouping, projection, record extension) then rewrite the stored table while reading it",
+                                                       "site": "%s:%d" % (f["file"], f["line"])}, concrete=False, signature=sg))
         for f in parse_list("doubleCloseFacts"):
             sg = "doubleclose:%s:%s:%s" % (f["file"], f["fn"], f["lhs"])
             other_sites.append(sg)
@@ -152,7 +159,7 @@ def run(run):
                              ["ast write %s:%d %s %s (%s)" % (f["file"], f["line"], f["fn"], f["lhs"], f["how"]) for f in (shared + local)[:2]] + run.cov["samples"]
     return run.finish(
         level="proof",
-        rule="static: every value.Discard call site of lib/query and lib/value and every assignment / copy / sort of lib/query reaching through a parser.* value, checked by kernel evaluation; dynamic: expressions generated over every scalar function of the Functions map (argument types found by probing), arithmetic, comparison, logic, CASE, IN, BETWEEN, LIKE, IS, ANY/ALL, casts, in SELECT / WHERE / GROUP BY+aggregates / DISTINCT / analytic functions / JOIN / subqueries / UNION, each evaluated twice as plain statement, WHILE body, user-defined function body and prepared statement over 240 rows at @@CPU 4, plus re-reading tables, cursor rows and variables after unrelated statements, alternately with and without Discard poisoning (a fixed corpus incl. COUNT(*) OVER, NTH_VALUE, ORDER BY / PARTITION BY on text columns, comma-separated FROM lists and functions over datetime-typed temp-view cells / variables runs first in both modes; the generated kinds include those two shapes as well, plus: rows held by a cursor / derived temporary view / variable re-read after UPDATE, DELETE, REPLACE, ALTER on the base table and the base table after ROLLBACK (laws reread:held_rows, rollback_restores); adding a column (JSON_OBJECT over column references in every order, NOW, list aggregates WITHIN GROUP, analytic list functions, generated expressions) must leave the other columns of the result unchanged (law extra_column_changes_others); user-defined aggregates followed by a probe of csvq's block / node pools (pairwise distinct, empty: pool_no_alias) and by a function with nested blocks compared with its results in the fresh process (repeat_eval:after_uda)); non-trivial = distinct (kind, statement form, error?, result-length class)",
+        rule="static: every value.Discard call site of lib/query and lib/value and every assignment / copy / sort of lib/query reaching through a parser.* value, checked by kernel evaluation; dynamic: expressions generated over every scalar function of the Functions map (argument types found by probing), arithmetic, comparison, logic, CASE, IN, BETWEEN, LIKE, IS, ANY/ALL, casts, in SELECT / WHERE / GROUP BY+aggregates / DISTINCT / analytic functions / JOIN / subqueries / UNION, each evaluated twice as plain statement, WHILE body, user-defined function body and prepared statement over 240 rows at @@CPU 4, plus re-reading tables, cursor rows and variables after unrelated statements, alternately with and without Discard poisoning (a fixed corpus incl. COUNT(*) OVER, NTH_VALUE, ORDER BY / PARTITION BY on text columns, comma-separated FROM lists and functions over datetime-typed temp-view cells / variables runs first in both modes; the generated kinds include those two shapes as well, plus: rows held by a cursor / derived temporary view / variable re-read after UPDATE, DELETE, REPLACE, ALTER on the base table and the base table after ROLLBACK (laws reread:held_rows, rollback_restores); adding a column (JSON_OBJECT over column references in every order, NOW, list aggregates WITHIN GROUP, analytic list functions, generated expressions) must leave the other columns of the result unchanged (law extra_column_changes_others); a statement that reads one WITH table twice (two scalar sub-queries, outer query + sub-query, UNION ALL) after an in-place step of the first read must give for the second read what a fresh read gives (law reread:inline_table); user-defined aggregates followed by a probe of csvq's block / node pools (pairwise distinct, empty: pool_no_alias) and by a function with nested blocks compared with its results in the fresh process (repeat_eval:after_uda)); non-trivial = distinct (kind, statement form, error?, result-length class)",
         trusted_base=BASE_TRUST + [
             "extract/discardfacts: conservative syntactic facts (go/ast + go/types); callees are not analysed",
             "sync.Pool modelled as a free list (Csvq/Model/Pool.lean)"],
